@@ -2195,15 +2195,75 @@ fn gen_c14(rng: &mut Rng, ops: &mut Vec<String>, stats: &mut Stats) {
     }
 }
 
+fn gen_c17(rng: &mut Rng, ops: &mut Vec<String>, stats: &mut Stats) {
+    let mode = *rng.pick(&["ip4", "ip4", "dual", "dual", "ip6"]);
+    let lshape = match mode {
+        "ip4" => *rng.pick(&["4", "n"]),
+        "ip6" => *rng.pick(&["6", "n"]),
+        _ => *rng.pick(&["46", "4", "n"]),
+    };
+    let vmin = *rng.pick(&[2u64, 2, 3, 4]);
+    let a = rng.range(1, 40);
+    ops.push(format!("snew A k{} {} {} 0 {} all 16 16 1 {}", a, rng.range(1, 300), lshape, mode, vmin));
+    // candidate external sockets
+    let c4 = ["203.0.113.5/30303", "203.0.113.5/30304", "198.51.100.7/9000"];
+    let c6 = ["20010db8000000000000000000000001/30303", "20010db8000000000000000000000002/30303"];
+    let n = rng.range(4, 9);
+    let mut voters: Vec<u64> = Vec::new();
+    for _ in 0..n {
+        let s = rng.range(100, 400);
+        voters.push(s);
+        let sh = contact_shape(mode, rng);
+        ops.push(format!("sest A k{}:1:{}:0 = {}", s, sh, if rng.chance(4, 5) { "o" } else { "i" }));
+        if rng.chance(1, 8) {
+            // the ping stays outstanding while the peer's entry changes
+            ops.push(format!("srm A k{}", s));
+            if rng.chance(1, 2) {
+                ops.push(format!("sest A k{}:1:{}:0 = i", s, sh));
+            }
+        }
+    }
+    let m = rng.range(6, 30);
+    let lead4 = *rng.pick(&c4);
+    let lead6 = *rng.pick(&c6);
+    for _ in 0..m {
+        let c = rng.below(100);
+        if c < 70 {
+            let v6 = mode == "ip6" || (mode == "dual" && rng.chance(1, 2));
+            let addr = if v6 {
+                if rng.chance(3, 4) { lead6 } else { *rng.pick(&c6) }
+            } else if rng.chance(3, 4) {
+                lead4
+            } else {
+                *rng.pick(&c4)
+            };
+            ops.push(format!("sresp A #p ok pong {} {}", rng.pick(&["+0", "+0", "+1"]), addr));
+        } else if c < 85 {
+            // a new session: another ping goes out
+            let s = if rng.chance(1, 2) { voters[rng.below(voters.len() as u64) as usize] } else { rng.range(100, 400) };
+            voters.push(s);
+            ops.push(format!("sest A k{}:1:{}:0 = {}", s, contact_shape(mode, rng), if rng.chance(4, 5) { "o" } else { "i" }));
+        } else if c < 90 {
+            ops.push("sfail A #p".into());
+        } else if c < 95 {
+            ops.push(format!("sreq A k{} {} {} ping 1", voters[0], peer_addr(voters[0], mode), rid_tok(rng)));
+        } else {
+            ops.push("slocal A".into());
+        }
+    }
+    ops.push("slocal A".into());
+}
+
 pub fn gen_case(rng: &mut Rng, tier: &str, profile: &str, stats: &mut Stats) -> Vec<String> {
     let mut ops = Vec::new();
     let p = match profile {
-        "C11" | "C12" | "C14" => profile,
-        _ => *rng.pick(&["C11", "C12", "C14"]),
+        "C11" | "C12" | "C14" | "C17" => profile,
+        _ => *rng.pick(&["C11", "C12", "C14", "C17"]),
     };
     match p {
         "C11" => gen_c11(rng, &mut ops, stats),
         "C12" => gen_c12(rng, &mut ops, stats),
+        "C17" => gen_c17(rng, &mut ops, stats),
         _ => gen_c14(rng, &mut ops, stats),
     }
     ops
